@@ -37,5 +37,6 @@ let () = iter_lines (fun line ->
   | ["prange"; v] -> res (opt show_range) (parse_range_header (s_of v))
   | ["pcrange"; v] -> res (opt show_cr) (parse_content_range_header (s_of v))
   | ["page"; v] -> res show_oz (parse_age (s_of v))
+  | ["accept"; v] -> res (fun l -> if l = [] then "~" else String.concat "|" (List.map (fun (it, q) -> to_s it ^ "=" ^ opt to_s q) l)) (parse_accept_items (s_of v))
   | ["uqetag"; v] -> opt (fun (e, w) -> to_s e ^ ";" ^ (if w then "1" else "0")) (unquote_etag (s_of v))
   | _ -> "bad-command")
